@@ -13,6 +13,22 @@ type modelFn func(fr *Frame, st *State, args []Value, sig *types.Signature) []Ou
 
 func ret(st *State, vs ...Value) []Outcome { return []Outcome{{St: st, Res: vs}} }
 
+// errorsIs: err is target itself, or (uninterpreted) wraps it; a nil err matches only a nil target
+func errorsIs(st *State, a, b Iface) *Term {
+	at, bt := a.Tid, b.Tid
+	if a.Dyn != nil {
+		at = st.eng.tidOf(a.Dyn)
+	}
+	if b.Dyn != nil {
+		bt = st.eng.tidOf(b.Dyn)
+	}
+	if a.Box == nil || b.Box == nil {
+		return Var(st.eng.fresh("errors.is"), SBool)
+	}
+	same := And(Eq(at, bt), Eq(a.Box, b.Box))
+	return Ite(Eq(at, Int(0)), Eq(bt, Int(0)), Or(same, UF("errors.wraps", SBool, a.Box, b.Box)))
+}
+
 var nilErr = Iface{Tid: Int(0), Box: Int(0)}
 
 func (st *State) nonNilErr(hint string) Value { return st.freshNonNilIface(hint) }
@@ -186,6 +202,16 @@ func init() {
 			return ret(st, Scalar{val}, Scalar{k}, Iface{Tid: etid, Box: eh})
 		},
 		"errors.New":                   errCtor,
+		// errors.Is(err, target): true when err is target itself, false for a nil err and a non-nil
+		// target, otherwise unknown (unwrapping chains are not modelled)
+		"errors.Is": func(fr *Frame, st *State, args []Value, sig *types.Signature) []Outcome {
+			a, ok1 := args[0].(Iface)
+			b, ok2 := args[1].(Iface)
+			if ok1 && ok2 {
+				return ret(st, Scalar{errorsIs(st, a, b)})
+			}
+			return ret(st, Scalar{Var(st.eng.fresh("errors.is"), SBool)})
+		},
 		"fmt.Errorf":                   errCtor,
 		"github.com/pkg/errors.New":    errCtor,
 		"github.com/pkg/errors.Errorf": errCtor,
